@@ -331,10 +331,14 @@ def run_case(U: dict, C: dict, req: List[str], ordering: Optional[str], mode: st
         if mode == "SYNC":
             res = call()
         else:
-            status, res = mp_obs.watchdog(call, 40.0)
+            def again() -> None:
+                REC.reset()
+                if sink is not None:
+                    sink.reset()
+            status, res, n_to = mp_obs.watchdog_retry(call, 40.0, again)
+            out["timeouts"] = n_to
             if status == "hang":
-                mp_obs.kill_stray_children()
-                raise TimeoutError("HANG: run_all did not return within 40 s")
+                raise TimeoutError("HANG: run_all did not return within 40 s, twice")
             if status == "raised":
                 raise res
         out["tables"] = [table_columns(t) for t in res]
